@@ -14,6 +14,8 @@ from mappyfile.transformer import MapfileToDict  # noqa: E402
 from mappyfile.pprint import PrettyPrinter  # noqa: E402
 from mappyfile.validator import Validator  # noqa: E402
 import lark  # noqa: E402
+from mappyfile.ordereddict import CaseInsensitiveOrderedDict, DefaultOrderedDict  # noqa: E402
+from mappyfile import dictutils  # noqa: E402
 
 logging.getLogger("mappyfile").setLevel(logging.CRITICAL)
 logging.getLogger("mappyfile").propagate = False
